@@ -60,6 +60,9 @@ CHECKS = {
  "C07": dict(engine="mirsmt", technique="SMT over sequential encodings generated from the MIR of Inner::{get_recent_metrics,drain_histograms_to_distributions,run_upkeep} and PrometheusRecorder::add_description_if_missing with keyed containers of concrete size and symbolic content; counterexamples replayed through the public recorder/handle API with render() parsed by an independent strict parser",
     text="record / render-snapshot / run_upkeep histories on one histogram, counter and gauge with symbolic values: every snapshot's distribution holds exactly the samples recorded so far, each sample is folded exactly once, counter and gauge show the storage value; the first description/unit of a name is kept",
     note="reduced claim: the conservation chain up to the Snapshot that render() prints (its text is C08's subject); sequential histories only (record-during-render is C05's subject); registry, recency, bucket, maps and locks by their contracts; label merging is checked in C08 (key_to_parts)", ref="§4 C07"),
+ "C17": dict(engine="mirsmt", technique="SMT over sequential encodings generated from the MIR of Labels::{extend,extend_from_labels,extend_from_labels_overwrite}, MetricsLayer::{on_new_span,on_record} and the key-building closures of TracingContext::enhance_key, with keyed maps of concrete size and symbolic names/values; a failing rule must also fail in a native battery through the public API",
+    text="maps of <= 2 labels with symbolic (possibly coinciding) names: inner span over outer span, later record() over earlier value, metric label over span field, filter verdict respected, no name twice, nothing dropped, no new key without span labels",
+    note="reduced claim: tracing-subscriber's registry is modelled (parent link + one Labels slot); the dispatcher, thread-local current span, other threads' spans and field value formatting are NOT covered", ref="§4 C17"),
 }
 NA = {}
 ids = [json.loads(l)["id"] for l in open(os.path.join(V, "properties.jsonl"))]
